@@ -18,6 +18,7 @@
 #include <stdio.h>
 #include <stdlib.h>
 #include <string.h>
+#include <signal.h>
 
 /* Required by runtime/cli.c */
 int g_argc = 0;
@@ -221,6 +222,9 @@ int main(int argc, char *argv[]) {
         fprintf(stderr, "Error: No .nvm file specified\n");
         return 1;
     }
+
+    /* A dead co-process (or daemon) must surface as a write error, not kill us */
+    signal(SIGPIPE, SIG_IGN);
 
     if (daemon_mode) {
         return run_daemon(nvm_path);
